@@ -228,20 +228,34 @@ class C06Daemon(Episode):
         for r in w.reqs:
             for e in r.sync_replies:
                 self._owners[e[0]] = r
-        # asynchronous replies: by id among accepted waiting requests
+        # asynchronous replies: by id among accepted waiting requests first,
+        # then any earlier request with that id (a second reply); a frame
+        # nobody asked for is a violation of its own
         for e in w.ctx.replies:
             if e[0] in self._owners:
                 continue
             o = e[5]
             rid = o.get('id') if isinstance(o, dict) else None
+            owner = None
             for r in w.reqs:
                 if 'eid' in r.meta and r.meta.get('eid') == rid and \
                         r.accepted and not r.meta.get('cast') and \
                         not r.sync_replies and r.disp_seq is not None and \
                         r.disp_seq < e[0] and not r.meta.get('got_async'):
-                    self._owners[e[0]] = r
+                    owner = r
                     r.meta['got_async'] = True
                     break
+            if owner is None:
+                for r in reversed(w.reqs):
+                    if 'eid' in r.meta and r.meta.get('eid') == rid and \
+                            r.disp_seq is not None and r.disp_seq < e[0]:
+                        owner = r
+                        break
+            if owner is not None:
+                self._owners[e[0]] = owner
+            else:
+                self.viol('unsolicited_reply', 'the daemon sent %r which '
+                          'answers no message' % (e[4][:120],), once=e[0])
 
     @staticmethod
     def classify(raw):
